@@ -927,14 +927,16 @@ macro_rules! pair_sim {
 pair_sim!(pair_modes, Outer, Inner, ExA, ExB, str);
 pair_sim!(pair_bytes, BinA, BinB, ExA, ExB, [u8]);
 pair_sim!(pair_callbacks, CbA, CbB, ExA, ExB, str);
+pair_sim!(pair_anchors, AnchA, AnchB, ExA, ExB, str);
 
-const PAIRS: [&str; 3] = ["modes", "bytes", "callbacks"];
+const PAIRS: [&str; 4] = ["modes", "bytes", "callbacks", "anchors"];
 
 fn exec_pair(pair: &str, source: &[u8], partial: bool, extras: ExM, steps: StepSource, faults: bool) -> Outcome {
     match pair {
         "modes" => pair_modes::exec(pair, source, partial, extras, steps, faults),
         "bytes" => pair_bytes::exec(pair, source, partial, extras, steps, faults),
         "callbacks" => pair_callbacks::exec(pair, source, partial, extras, steps, faults),
+        "anchors" => pair_anchors::exec(pair, source, partial, extras, steps, faults),
         _ => {
             eprintln!("api-sim: unknown pair {pair:?}");
             std::process::exit(2)
@@ -958,6 +960,9 @@ const FRAG_CALLBACKS: &[&str] = &[
     "abc", "z", "#", "12", "123", "7", "!", "!!", "?", " ", "\n", "  ", "/*", "*/", "/* x */", "é€𝔸", "é", "€", "𝔸", "αβγ", "ω",
     "//", "// x\n", "/", "*", "a1b2", "#é",
 ];
+const FRAG_ANCHORS: &[&str] = &[
+    "x", "xx", "xxx", "y", "yy", "z", "if", "if_", "iff", "i", "abc", "_", " ", "\t", "\n", "#", "# c", "#c\n", "12", "end", "endx", "en", "xy", "yx\n", "y\n", "é",
+];
 const FRAG_BYTES: &[&[u8]] = &[
     b"\xCA\xFE\xBE\xEF", b"\xCA\xFE", b"\xA0\xA5\xAF", b"\xA1", b"abc", b"q", b"\x00", b"\x00\x00", b" ", b"\t", b"\xFF\x01", b"\xFF",
     b"\x80\x90", b"aa", b"a1", b"zz9", b"\xEF", b"\x10",
@@ -975,6 +980,7 @@ fn gen_source(rng: &mut Rng, pair: &str) -> Vec<u8> {
         match pair {
             "modes" => out.extend_from_slice(rng.pick(FRAG_MODES).as_bytes()),
             "callbacks" => out.extend_from_slice(rng.pick(FRAG_CALLBACKS).as_bytes()),
+            "anchors" => out.extend_from_slice(rng.pick(FRAG_ANCHORS).as_bytes()),
             _ => {
                 if rng.chance(1, 5) {
                     out.push(rng.below(256) as u8);
@@ -990,9 +996,9 @@ fn gen_source(rng: &mut Rng, pair: &str) -> Vec<u8> {
 fn run_one(seed: u64, mode: &str, index: u64, want_sample: bool) -> RunReport {
     let faults = mode == "c15";
     let mut rng = Rng::for_run(seed, if faults { "api-sim/c15" } else { "api-sim/c14" }, index);
-    let pair = PAIRS[(index % 3) as usize];
+    let pair = PAIRS[(index % 4) as usize];
     let source = gen_source(&mut rng, pair);
-    let partial = rng.chance(1, 3);
+    let partial = if pair == "anchors" { rng.chance(2, 3) } else { rng.chance(1, 3) };
     let extras = ExM { count: rng.below(5) as u32, request: rng.below(4) as u64, force: false, tag: rng.below(256) as u8 };
     let nsteps = match rng.below(6) {
         0 => rng.range(1, 4),
